@@ -4,6 +4,7 @@ import Mathlib.Algebra.Module.Rat
 import Mathlib.Algebra.Module.Basic
 import Mathlib.Algebra.BigOperators.Group.List.Basic
 import Mathlib.Tactic.NormNum
+import Mathlib.Tactic.Ring
 import BronVerif.Model.SignAlg
 import BronVerif.Lemmas.SignAlgSpec
 import BronVerif.Lemmas.EpochLin
@@ -26,7 +27,8 @@ definitions of `Model/SignAlg.lean` (lists, `Model/LinAlg.solveLeft`), for any M
   so the driver's qualified / unqualified span tests are exact;
 * `shareLiftOk_iff`, `all_parties_agree`, `dkg_line_rows`: the party-level check is the row-level check
   on each owned row, and all parties' private shares are the rows of `M · r`;
-* `vvSum_spec`, `vvSum_lift`, `vvSum_pk`: the summed verification vector is `(Σ r⁽ⁱ⁾) • g`, `pk = (Σ r⁽ⁱ⁾₀) • g`.
+* `vvSum_spec`, `vvSum_lift`, `vvSum_pk`: the summed verification vector is `(Σ r⁽ⁱ⁾) • g`, `pk = (Σ r⁽ⁱ⁾₀) • g`;
+* `lindell17_dkg_*`: the decomposition `x = 3x′ + x″` check of the Lindell17 DKG recombines to the same key.
 -/
 set_option linter.unusedSectionVars false
 set_option linter.unusedSimpArgs false
@@ -316,6 +318,68 @@ theorem vvSum_cyclic (g : G) (cols : ℕ) (rs : List (List F)) :
   obtain ⟨a, _, rfl⟩ := List.mem_map.mp hP
   exact ⟨a, rfl⟩
 
+/-! ### 5. Lindell17 DKG (group-level algebra of `lindell17/keygen/dkg/round.go`)
+
+Each party splits every component `x` of its MSP share as `x = 3x′ + x″`
+(`lindell17.DecomposeTwoThirds`), publishes `Q′ = x′ • g`, `Q″ = x″ • g` with Schnorr proofs, and every
+peer checks `triplePoint(Q′) + Q″ = ` public share component; `x′, x″` are then Paillier-encrypted
+(LPDL proofs tie the ciphertexts to `Q′, Q″`).  The Paillier layer and the range condition
+`x′, x″ ∈ [q/3, 2q/3)` are not modelled here (`decompose_two_thirds` stays a named gap). -/
+
+/-- `Round1`/`Round3` of the Lindell17 DKG: an honest decomposition `x = 3x′ + x″` of a raw share
+component passes the verifier's check `triplePoint(Q′) + Q″ = Λ` (`triplePoint P = P + P + P`) against
+the public share component `Λ = x • g`. -/
+theorem lindell17_dkg_component_complete (g : G) (x xp xpp : F) (h : x = 3 * xp + xpp) :
+    (xp • g + xp • g + xp • g) + xpp • g = x • g := by
+  subst h
+  rw [add_smul, mul_smul, ← add_smul, ← add_smul, ← mul_smul]
+  congr 2; ring
+
+/-- conversely (generator hypothesis; `x′, x″` are the discrete logarithms of `Q′, Q″` that the two
+Schnorr proofs of knowledge extract and that LPDL ties to the Paillier ciphertexts): a pair that passes
+the check recombines to the share component, `x = 3x′ + x″`. -/
+theorem lindell17_dkg_component_sound (g : G) (hg : ∀ a : F, a • g = 0 → a = 0) (x xp xpp : F)
+    (h : (xp • g + xp • g + xp • g) + xpp • g = x • g) : x = 3 * xp + xpp := by
+  rw [lindell17_dkg_component_complete g (3 * xp + xpp) xp xpp rfl] at h
+  have : (x - (3 * xp + xpp)) • g = 0 := by rw [sub_smul, h, sub_self]
+  exact sub_eq_zero.mp (hg _ this)
+
+/-- against the public share component `M_k · V` of the base shard (`V = r • g`): the accepted pair
+recombines to the dealt entry `⟨M_k, r⟩` and passes the model's row check. -/
+theorem lindell17_dkg_component_public (g : G) (hg : ∀ a : F, a • g = 0 → a = 0) (row r : List F)
+    (xp xpp : F)
+    (h : (xp • g + xp • g + xp • g) + xpp • g = gdot row (r.map (· • g))) :
+    3 * xp + xpp = dot row r ∧ rowLiftOk g row (r.map (· • g)) (3 * xp + xpp) = true := by
+  have h2 : rowLiftOk g row (r.map (· • g)) (3 * xp + xpp) = true := by
+    rw [rowLiftOk_iff, ← h]
+    exact (lindell17_dkg_component_complete g _ xp xpp rfl).symm
+  exact ⟨rowLiftOk_only_honest g hg row r _ h2, h2⟩
+
+/-- **`lindell17_dkg_key`**: if every row's published pair passes the `Round3` check against `M_k · V`,
+then for every set `S` on which the model's `reconstruct` succeeds, the recombined halves
+`3x′_k + x″_k` (the plaintexts of the stored Paillier ciphertexts; their range `[q/3, 2q/3)` and the
+encryption itself are abstracted away) reconstruct exactly the discrete logarithm of `pk = V₀`. -/
+theorem lindell17_dkg_key (g : G) (hg : ∀ a : F, a • g = 0 → a = 0) (M : Mat F) (cols : ℕ)
+    (hcols : 0 < cols) (labels : List ℕ) (V : List G) (hV : V.length = cols)
+    (hcyc : ∀ P ∈ V, ∃ a : F, P = a • g) (xp xpp : ℕ → F)
+    (hcheck : ∀ k < labels.length,
+      (xp k • g + xp k • g + xp k • g) + xpp k • g = gdot (M.getD k []) V)
+    (S : List ℕ) (s : F)
+    (h : reconstruct M cols labels (fun k => 3 * xp k + xpp k) S = some s) :
+    s • g = V.headD 0 := by
+  refine recon_line_sound g hg M cols hcols labels V hV hcyc _ (fun k hk => ?_) S s h
+  rw [rowLiftOk_iff, ← hcheck k hk]
+  exact (lindell17_dkg_component_complete g _ (xp k) (xpp k) rfl).symm
+
+/-- additive form: `Σ (3Q′ᵢ + Q″ᵢ) = (Σ (3x′ᵢ + x″ᵢ)) • g` -/
+theorem lindell17_dkg_pk_sum (g : G) (xs : List (F × F)) :
+    (xs.map fun x => (x.1 • g + x.1 • g + x.1 • g) + x.2 • g).sum
+      = (xs.map fun x => 3 * x.1 + x.2).sum • g := by
+  rw [← sum_map_smul g (fun x : F × F => 3 * x.1 + x.2) xs]
+  congr 1
+  refine List.map_congr_left fun x _ => ?_
+  exact lindell17_dkg_component_complete g _ x.1 x.2 rfl
+
 /-! ### non-vacuity: 2-of-2 additive MSP `M = [[1,1],[0,1]]` over ℚ, `g = 1`, dealt column `r = (5, 7)`,
 `V = r • g = [5, 7]`, holders `1, 2` with shares `12 = 5 + 7` and `7` -/
 
@@ -413,6 +477,29 @@ example : (vvSum 2 ([[1, 2], [4, 5]] : List (List ℚ))).getD 1 0 = 7 := by
 
 example : ∀ P ∈ vvSum 2 ([[1, 2], [4, 5]].map fun r : List ℚ => r.map (· • (1 : ℚ))),
     ∃ a : ℚ, P = a • (1 : ℚ) := vvSum_cyclic 1 2 _
+/-- Lindell17: `12 = 3·2 + 6`, and the rows `12 = 3·2 + 6`, `7 = 3·1 + 4` of the 2-of-2 example -/
+example : ((2 : ℚ) • (1 : ℚ) + (2 : ℚ) • (1 : ℚ) + (2 : ℚ) • (1 : ℚ)) + (6 : ℚ) • (1 : ℚ) = (12 : ℚ) • (1 : ℚ) :=
+  lindell17_dkg_component_complete 1 12 2 6 (by norm_num)
+
+example : (12 : ℚ) = 3 * 2 + 6 :=
+  lindell17_dkg_component_sound (1 : ℚ) hgq 12 2 6 (by norm_num)
+
+example : (3 : ℚ) * 2 + 6 = dot [1, 1] [5, 7] :=
+  (lindell17_dkg_component_public (1 : ℚ) hgq [1, 1] [5, 7] 2 6 (by norm_num [gdot, gsum])).1
+
+private def xpq : ℕ → ℚ := fun k => if k = 0 then 2 else 1
+private def xppq : ℕ → ℚ := fun k => if k = 0 then 6 else 4
+
+example (S : List ℕ) (s : ℚ)
+    (h : reconstruct Mq 2 [1, 2] (fun k => 3 * xpq k + xppq k) S = some s) : s • (1 : ℚ) = 5 := by
+  refine lindell17_dkg_key 1 hgq Mq 2 (by norm_num) [1, 2] [5, 7] rfl hcycq xpq xppq ?_ S s h
+  intro k hk
+  have : k = 0 ∨ k = 1 := by simp at hk; omega
+  rcases this with rfl | rfl <;> norm_num [Mq, xpq, xppq, gdot, gsum]
+
+example : ([((2 : ℚ), (6 : ℚ)), (1, 4)].map fun x => (x.1 • (1 : ℚ) + x.1 • (1 : ℚ) + x.1 • (1 : ℚ)) + x.2 • (1 : ℚ)).sum
+    = (19 : ℚ) • (1 : ℚ) := by
+  rw [lindell17_dkg_pk_sum]; norm_num
 end examples
 
 end BronVerif.Props.C03Line
